@@ -1,7 +1,7 @@
 (* C05 — Each manipulation call has exactly the effect an ordered-tree model predicts.
    Pinned statements only.  Model: Model/Store.v, Model/Manip.v. *)
 From Coq Require Import List NArith Permutation.
-From XotV Require Import Model.Base Model.Zipper Model.Access Model.Store Model.Manip Proofs.StoreProofs Proofs.ManipProofs Proofs.InvSteps Proofs.TreeFrame.
+From XotV Require Import Model.Base Model.Zipper Model.Access Model.Store Model.Manip Proofs.StoreProofs Proofs.ManipProofs Proofs.InvSteps Proofs.TreeFrame Proofs.Canon Proofs.CloneShape Proofs.WrapEffect.
 Import ListNotations.
 Open Scope N_scope.
 
@@ -72,3 +72,28 @@ Theorem C05_trees_not_named_are_untouched :
     exists A' B', store (fst (mstep st o)) = fapp A' (fapp T B').
 Proof. exact tree_frame. Qed.
 Print Assumptions C05_trees_not_named_are_untouched.
+
+
+(* element_wrap has exactly the effect the ordered-tree model predicts, for every node of every good store: if the call succeeds
+   on a node [n] that has a parent, the new store is the old one with a new element [w] standing exactly where [n] stood — same
+   preceding and following siblings, same ancestors, every other tree untouched — and [n], with its subtree as it was, as the only
+   child of [w].  ([plug z] is the tree around the cursor [z] of [n]; [wrapped z w name] is that cursor with [w] in the place of
+   [n].)  The call itself goes the long way round — new element, detach, append, insert after the previous sibling or
+   prepend to the parent — and every one of these steps is followed: Proofs/WrapEffect.v. *)
+Theorem C05_element_wrap_effect :
+  forall st n name z A B st' r,
+    Good st -> cur st n = Some z -> store st = fapp A (fapp (plug z) B) -> z_ups z <> [] ->
+    m_wrap st n name = (st', MDone r) ->
+    exists w, r = Some w /\ ~ In w (ids (store st)) /\ store st' = fapp A (fapp (plug (wrapped z w name)) B).
+Proof. exact wrap_store_inner. Qed.
+Print Assumptions C05_element_wrap_effect.
+
+(* ... and on a parentless node: the wrapper is a new root holding [n]; the other trees stay *)
+Theorem C05_element_wrap_effect_root :
+  forall st n name z A B st' r,
+    Good st -> cur st n = Some z -> store st = fapp A (fapp (plug z) B) -> z_ups z = [] ->
+    m_wrap st n name = (st', MDone r) ->
+    exists w, r = Some w /\ ~ In w (ids (store st))
+      /\ store st' = FCons w (VElement name) (FCons n (z_val z) (z_kids z) FNil) (fapp A B).
+Proof. exact wrap_store_root. Qed.
+Print Assumptions C05_element_wrap_effect_root.
